@@ -8,7 +8,7 @@ Protocol (one answer per line):
   begin <dev|release>                      reset                          -> ok
   slot <id> i <int> | f <hex16> | s <hex>  value-store slot (ids ascending) -> ok
   node <id> <Kind> <fields…>               stored node                    -> ok
-  nancfg <LLLLL> <6 x hex16>               host NaN conventions (calibrated by the harness) -> ok
+  nancfg <LRLRL> <QKQKQ> <6 x hex16>             host NaN conventions (calibrated by the harness) -> ok
   dev <hexmem> <roLo> <roHi>               device image                   -> ok
   op <name> <node> [arg]                   interface call    -> ok … | err V | panic, then
                                            ` L<log length>:<running log digest> M<image digest>`
@@ -54,6 +54,12 @@ structure NanCfg where
   invDiv : UInt64 := 0xfff8000000000000
   invRem : UInt64 := 0xfff8000000000000
   invSqrt : UInt64 := 0xfff8000000000000
+  /-- unary functions quiet a signalling NaN operand (else return it unchanged) -/
+  qFloor : Bool := true
+  qCeil : Bool := true
+  qRound : Bool := true
+  qTrunc : Bool := true
+  qSqrt : Bool := true
   deriving Inhabited
 
 namespace FB
@@ -69,8 +75,8 @@ def bin (lhsWins : Bool) (inv : UInt64) (f : Float → Float → Float) (a b : F
   else if b.isNaN then b.quiet
   else ofFloat (f a.fl b.fl) inv
 
-def un (inv : UInt64) (f : Float → Float) (a : FB) : FB :=
-  if a.isNaN then a.quiet else ofFloat (f a.fl) inv
+def un (inv : UInt64) (f : Float → Float) (a : FB) (q : Bool := true) : FB :=
+  if a.isNaN then (if q then a.quiet else a) else ofFloat (f a.fl) inv
 end FB
 
 def F0 : Formula.FloatOps Float := inferInstance
@@ -98,11 +104,11 @@ def fbInst (c : NanCfg) : Formula.FloatOps FB where
   exp := FB.un 0xfff8000000000000 F0.exp
   ln := FB.un 0xfff8000000000000 F0.ln
   log10 := FB.un 0xfff8000000000000 F0.log10
-  sqrt := FB.un c.invSqrt F0.sqrt
-  trunc := FB.un 0xfff8000000000000 F0.trunc
-  floor := FB.un 0xfff8000000000000 F0.floor
-  ceil := FB.un 0xfff8000000000000 F0.ceil
-  round := FB.un 0xfff8000000000000 F0.round
+  sqrt a := FB.un c.invSqrt F0.sqrt a c.qSqrt
+  trunc a := FB.un 0xfff8000000000000 F0.trunc a c.qTrunc
+  floor a := FB.un 0xfff8000000000000 F0.floor a c.qFloor
+  ceil a := FB.un 0xfff8000000000000 F0.ceil a c.qCeil
+  round a := FB.un 0xfff8000000000000 F0.round a c.qRound
   ofDec m k := ⟨(F0.ofDec m k).toBits⟩
   pi := ⟨F0.pi.toBits⟩
   e := ⟨F0.e.toBits⟩
@@ -650,13 +656,15 @@ def handle (spec : Bool) (d : DState) : List String → DState × String
         ({ d with st := st', dead := dead, logHash := lh }, showRes r ++ sfx ++ pin)
     | none => (d, "bad-op")
   | ["end"] => (d, digest d.st)
-  | ["nancfg", prefs, a, b, c, e, f, g] =>
-    match prefs.toList.map (· == 'L'), hexToNat a, hexToNat b, hexToNat c, hexToNat e, hexToNat f, hexToNat g with
-    | [p1, p2, p3, p4, p5], some a, some b, some c, some e, some f, some g =>
+  | ["nancfg", prefs, un, a, b, c, e, f, g] =>
+    match prefs.toList.map (· == 'L'), un.toList.map (· == 'Q'), hexToNat a, hexToNat b, hexToNat c, hexToNat e,
+        hexToNat f, hexToNat g with
+    | [p1, p2, p3, p4, p5], [q1, q2, q3, q4, q5], some a, some b, some c, some e, some f, some g =>
       ({ d with nan := { lhsAdd := p1, lhsSub := p2, lhsMul := p3, lhsDiv := p4, lhsRem := p5,
+                         qFloor := q1, qCeil := q2, qRound := q3, qTrunc := q4, qSqrt := q5,
                          invAdd := UInt64.ofNat a, invSub := UInt64.ofNat b, invMul := UInt64.ofNat c,
                          invDiv := UInt64.ofNat e, invRem := UInt64.ofNat f, invSqrt := UInt64.ofNat g } }, "ok")
-    | _, _, _, _, _, _, _ => (d, "bad-nancfg")
+    | _, _, _, _, _, _, _, _ => (d, "bad-nancfg")
   | _ => (d, "bad-op")
 
 partial def loop (spec : Bool) (hin hout : IO.FS.Stream) (d : DState) : IO Unit := do
